@@ -51,6 +51,7 @@ type natEntry struct {
 
 // natUplinkGeneric is used for passing information about relay uplink to the relay goroutine.
 type natUplinkGeneric struct {
+	state          *atomic.Pointer[net.UDPConn]
 	clientName     string
 	clientAddrPort netip.AddrPort
 	natConn        *net.UDPConn
@@ -377,6 +378,7 @@ func (s *UDPNATRelay) recvFromServerConnGeneric(ctx context.Context, lnc *udpRel
 
 				s.wg.Go(func() {
 					s.relayServerConnToNatConnGeneric(ctx, natUplinkGeneric{
+						state:          &entry.state,
 						clientName:     clientInfo.Name,
 						clientAddrPort: clientAddrPort,
 						natConn:        natConn,
@@ -480,6 +482,12 @@ func (s *UDPNATRelay) relayServerConnToNatConnGeneric(ctx context.Context, uplin
 				zap.Duration("natTimeout", uplink.natTimeout),
 				zap.Error(err),
 			)
+		}
+		// Stop swaps the session state before forcing the read deadline into the past.
+		// If that happened while we were sending, do not let the re-arm above keep the downlink
+		// goroutine, and therefore Stop, waiting for the NAT timeout.
+		if uplink.state.Load() != uplink.natConn {
+			_ = uplink.natConn.SetReadDeadline(conn.ALongTimeAgo)
 		}
 		verifhook.At("relay.uplink.afterRearm", s, uplink.clientAddrPort)
 
